@@ -55,6 +55,69 @@ def instance_isolation(ctx, g):
         mine.codecs.update(saved)
 
 
+def decoded_values_are_fresh(ctx, g, cases):
+    """Decoding the same bytes twice gives two INDEPENDENT values: every mutable container inside the first result is edited (an
+    element appended / added / stored), the second result -- and a third decode afterwards -- still is the value the bytes encode.
+    Empty containers included: an empty list handed out twice must be two lists."""
+    import codec_cases as _cc
+
+    def grow(v, depth=0):
+        n = 0
+        if isinstance(v, list):
+            for x in list(v):
+                n += grow(x, depth + 1)
+            v.append(v[0] if v else 7)
+            n += 1
+        elif isinstance(v, set):
+            for x in list(v):
+                n += grow(x, depth + 1)
+            v.add(("zz-sentinel", depth))
+            n += 1
+        elif isinstance(v, dict):
+            for x in list(v.values()):
+                n += grow(x, depth + 1)
+            v[("zz-sentinel", depth)] = 7
+            n += 1
+        elif isinstance(v, tuple):
+            for x in v:
+                n += grow(x, depth + 1)
+        elif isinstance(v, g.serialization.Variant):
+            n += grow(v.val, depth + 1)
+        return n
+    fixed = [(("sequence", [("uint8_t", [])]), []), (("sequence", [("sequence", [("string", [])])]), [[], []]),
+             (("mapping", [("string", []), ("sequence", [("UUID", [])])]), {"a": [], "b": []}), (("set", [("uint8_t", [])]), set()),
+             (("mapping", [("uint8_t", []), ("set", [("string", [])])]), {1: set(), 2: set()}), (("tuple", [("sequence", [("uint8_t", [])]), ("sequence", [("uint8_t", [])])]), ([], []))]
+    env = cases[0][2]
+    todo = [(t, v, env) for t, v in fixed] + [c for c in cases if c[0][1]][:: max(1, len(cases) // 200)]
+    for t, v, env_ in todo:
+        tn = type_str(t)
+        enc = _cc.impl_encode(g, v, tn, reform=False)
+        if enc[0] != "ok":
+            continue
+        d1, d2 = _cc.impl_decode(g, enc[1], tn, env_), _cc.impl_decode(g, enc[1], tn, env_)
+        if d1[0] != "ok" or d2[0] != "ok":
+            continue
+        try:
+            before = canon(to_sx(d2[1], env_, t))
+            edits = grow(d1[1])
+        except Exception:  # noqa: BLE001
+            continue
+        if not edits:
+            continue
+        ctx.count("decoded_values_edited")
+        ctx.case("fresh" + tn + repr(before), True)
+        d3 = _cc.impl_decode(g, enc[1], tn, env_)
+        try:
+            after2 = canon(to_sx(d2[1], env_, t))
+            after3 = canon(to_sx(d3[1], env_, t)) if d3[0] == "ok" else d3
+        except Exception as e:  # noqa: BLE001
+            after2 = after3 = "unreadable (%s)" % type(e).__name__
+        if after2 != before or after3 != before:
+            ctx.add("oracle", "cross-decode", "type %s: after the containers of one decoded value were edited, %s of the same bytes reads %s (the bytes encode %s)"
+                    % (tn, "a second, earlier decode" if after2 != before else "a later decode", str(after2 if after2 != before else after3)[:160], str(before)[:160]),
+                    {"type_name": tn, "bytes": enc[1].hex()})
+
+
 def after_failed_encode(ctx, g):
     """A save that fails part-way through a table (a later element of the wrong type, out of range, of an unknown inner type) leaves
     nothing behind: the next tables written by the process are exactly the documented encoding of their values."""
@@ -299,6 +362,7 @@ def run(ctx):
             ctx.count("java_leg_unavailable")
     ctx.cov["traces_validated_against_impl"] = len(meta) + len(nc_bytes)
     through_saved_files(ctx, g, cases)
+    decoded_values_are_fresh(ctx, g, cases)
     instance_isolation(ctx, g)
     after_failed_encode(ctx, g)
     import codec_cases as _cc
